@@ -33,11 +33,20 @@ def _is_generator(fn: loader.Func) -> bool:
     return any(isinstance(n, (ast.Yield, ast.YieldFrom)) for n in C.walk_shallow(fn.node))
 
 
+def _names_in(node, nm: str) -> bool:
+    return any(isinstance(x, ast.Name) and x.id == nm and isinstance(x.ctx, ast.Load)
+               for e in C.exprs_of(node) for x in C.walk_shallow(e))
+
+
 def rule_snapshot(ctx: Ctx) -> None:
+    """A lazily re-polling generator of the multiplexer is 'drawn' wherever it (or the name it is bound to) is
+    iterated, sliced, next()-ed ...  The events of a pass are fixed before handlers can run iff no suspension point
+    lies between two draws.  list()/tuple()/sorted() applied directly to the generator exhaust it in one step."""
     ci = A.call_index(ctx)
     cls = f"{DISP}.BacktestingDispatcher"
     n_sites = 0
     for name, fn in sorted(ctx.repo.methods_of(cls).items()):
+        g = None
         for c in A.func_calls(fn):
             gens = [q for q in ci.callees(fn.module, c)
                     if q.startswith(f"{DISP}.EventMultiplexer.") and q in ctx.repo.funcs and _is_generator(ctx.repo.funcs[q])]
@@ -47,50 +56,58 @@ def rule_snapshot(ctx: Ctx) -> None:
             ctx.analysed_funcs.update(gens)
             gname = gens[0].rsplit(".", 1)[-1]
             inst = f"pass over {gname}() in {name}"
-            # how is the generator consumed?
-            loop: Optional[ast.AST] = None
-            mat = False
-            cur: ast.AST = c
-            for a in A.ancestors(c):
-                if isinstance(a, ast.Call) and cur in a.args and A.call_name(a) in ("list", "tuple", "sorted"):
-                    mat = True
-                    break
-                if isinstance(a, (ast.For, ast.AsyncFor)) and A.is_within(c, a.iter):
-                    loop = a
-                    break
-                if isinstance(a, ast.Assign) and len(a.targets) == 1 and isinstance(a.targets[0], ast.Name) and a.value is cur:
-                    nm = a.targets[0].id
-                    loops = [n for n in C.walk_shallow(fn.node) if isinstance(n, (ast.For, ast.AsyncFor))
-                             and isinstance(n.iter, ast.Name) and n.iter.id == nm]
-                    mats = [n for n in C.walk_shallow(fn.node) if isinstance(n, ast.Call)
-                            and A.call_name(n) in ("list", "tuple", "sorted") and n.args
-                            and isinstance(n.args[0], ast.Name) and n.args[0].id == nm]
-                    if mats and not loops:
-                        mat = True
-                    elif len(loops) == 1 and not mats:
-                        loop = loops[0]
-                    else:
-                        ctx.require(False, f"C03.1: cannot tell how the generator bound to {nm} in {name} is consumed")
-                    break
-                if isinstance(a, ast.stmt):
-                    ctx.require(False, f"C03.1: unrecognised consumption of {gname}() in {name} (line {c.lineno})")
-                cur = a
-            if mat:
-                ctx.ok("C03.1", inst, fn, c, "events of the pass are materialised before the first suspension point")
+            g = g or ctx.cfg(fn)
+            par = c.parent  # type: ignore[attr-defined]
+            if isinstance(par, ast.Call) and c in par.args and A.call_name(par) in ("list", "tuple", "sorted"):
+                ctx.ok("C03.1", inst, fn, c, "events of the pass are materialised in one step, before any suspension point")
                 continue
-            ctx.require(loop is not None, f"C03.1: {gname}() in {name} is neither iterated nor materialised")
-            susp = [x for s_ in loop.body for x in C.walk_shallow(s_)
-                    if isinstance(x, (ast.Await, ast.AsyncFor, ast.AsyncWith))]
-            if not susp:
-                ctx.ok("C03.1", inst, fn, c, "loop body has no suspension point")
+            bound: Optional[str] = None
+            if isinstance(par, ast.Assign) and len(par.targets) == 1 and isinstance(par.targets[0], ast.Name) and par.value is c:
+                bound = par.targets[0].id
+            elif isinstance(par, ast.NamedExpr) and par.value is c:
+                bound = par.target.id
+            home = g.nodes_for(c)
+            ctx.require(home, f"C03.1: call site of {gname}() in {name} has no CFG node")
+            if bound is None:
+                draws = [(n, False) for n in home]
             else:
+                draws = []
+                for n in g.nodes:
+                    if n in home or not _names_in(n, bound):
+                        continue
+                    exhaust = any(isinstance(x, ast.Call) and A.call_name(x) in ("list", "tuple", "sorted") and len(x.args) >= 1
+                                  and isinstance(x.args[0], ast.Name) and x.args[0].id == bound
+                                  for e in C.exprs_of(n) for x in C.walk_shallow(e))
+                    draws.append((n, exhaust))
+                ctx.require(draws, f"C03.1: generator bound to '{bound}' in {name} is never consumed")
+            alld = {n for n, _ in draws}
+            bad = None
+            for d1, exhaust in draws:
+                if exhaust:
+                    continue
+                r1 = g.reach([d1])
+                ws = [n for n in r1 if C.contains_await(n)]
+                if C.contains_await(d1):
+                    ws.append(d1)
+                for w in ws:
+                    r2 = g.reach([w])
+                    hit = [d for d in alld if d in r2]
+                    if hit:
+                        bad = (d1, w, hit[0])
+                        break
+                if bad:
+                    break
+            if bad is None:
+                ctx.ok("C03.1", inst, fn, c, "no suspension point between two draws from the lazy generator")
+            else:
+                d1, w, d2 = bad
                 ctx.bad("C03.1", inst, fn, c,
-                        f"the loop draws events lazily from {gname}() (which re-polls every source on "
-                        f"each step) and suspends at line {susp[0].lineno} ({ast.unparse(susp[0])[:60]}): when the pool "
-                        "is full a handler already running can publish a derived bar event that is popped in this same "
+                        f"events are drawn lazily from {gname}() (which re-polls every source on each step) at line {d1.line} "
+                        f"and again at line {d2.line} after the suspension point at line {w.line} ({w.text()[:60]}): when the "
+                        "pool is full a handler already running can publish a derived bar event that is drawn in this same "
                         "pass, before primary bars of the same timestamp are matched -> an order is filled by the bar of "
                         "its own timestamp and results depend on max_concurrent",
-                        detail={"suspension": ast.unparse(susp[0]), "generator": gens[0]})
+                        detail={"draw": d1.text(), "suspension": w.text(), "next_draw": d2.text(), "generator": gens[0]})
     ctx.floor("C03.1", "lazy event-draw sites in BacktestingDispatcher", n_sites, 1)
     # pop_while re-polls on every step: it is a generator around pop()
     pw = ctx.func(f"{DISP}.EventMultiplexer.pop_while")
